@@ -83,3 +83,18 @@ package bgv
 
 //@ readonly Evaluator.MulRelinThenAdd op1
 //@   property C09
+
+// ---- no residue in the output of a scalar operation (property C09) ----
+//@ afunc Evaluator.Add#scalar
+//@   property C09
+//@   dyn op1 *big.Int
+//@   nilable
+//@   requires len(op0.Value) >= 1 && len(op0.Value) <= 3
+//@   ensures implies(isnil(err), len(opOut.Value) == len(op0.Value))
+
+//@ afunc Evaluator.Mul#scalar
+//@   property C09
+//@   dyn op1 *big.Int
+//@   nilable
+//@   requires len(op0.Value) >= 1 && len(op0.Value) <= 3
+//@   ensures implies(isnil(err), len(opOut.Value) == len(op0.Value))
